@@ -12,6 +12,7 @@ import Proofs.ResolverEquiv
 import Proofs.ResolverNoNs
 import Proofs.ResolverNxEvidence
 import Model.ResolverAsync
+import Model.ResolverName
 import Proofs.ResolverAsync
 /-!
 # C16 — stub resolution reaches the documented outcome under every fault sequence
@@ -574,6 +575,84 @@ theorem next_nameserver_schedule (env : Env) (st : St) :
     exact ⟨g5, r1, r2, r3, hc⟩
   · intro h1 h2 h3
     simp [nextNameserver, h1, h2, h3]
+
+/-! ## composite entry points -/
+
+/-- `Resolver.resolve_name` of the working tree (constants regenerated from the code) -/
+def codeResolveName (cfg : Config) (rq : NameReq) (now : Nat) (cache : Cache) (script : List ScriptStep) :
+    List Event × NameResult × Final :=
+  resolveName cfg codeBackoff ConstsC16.clipSleep ConstsC16.maxChain rq now cache script
+
+theorem budget_le {life timeout start now l : Nat} (h : budget life timeout start now = some l) :
+    now - start < life ∧ l ≤ life - (now - start) := by
+  unfold budget at h
+  split at h
+  · cases h
+  · cases h
+    refine ⟨by omega, ?_⟩
+    rw [Nat.min_def]; split <;> omega
+
+/-- "terminates within its lifetime" at the `resolve_name` entry point: the one or two lookups a host-name resolution
+is made of share one deadline — for every family, configuration, cache and script the call returns or raises no
+later than `lifetime` after it began (the A lookup only gets what the AAAA lookup left over). -/
+theorem resolve_name_within_lifetime (cfg : Config) (rq : NameReq) (now : Nat) (cache : Cache)
+    (script : List ScriptStep) :
+    (codeResolveName cfg rq now cache script).2.2.now ≤ now + rq.lifetime.getD cfg.lifetime := by
+  unfold codeResolveName resolveName
+  cases hf : rq.family with
+  | inet =>
+    have h := ends_within_lifetime cfg (subReq rq rq.qname tyA rq.raiseOnNoAnswer rq.lifetime) now cache script
+    simpa [codeResolve, subReq, finalOf] using h
+  | inet6 =>
+    have h := ends_within_lifetime cfg (subReq rq rq.qname tyAAAA rq.raiseOnNoAnswer rq.lifetime) now cache script
+    simpa [codeResolve, subReq, finalOf] using h
+  | unspec =>
+    simp only
+    cases hb1 : budget (rq.lifetime.getD cfg.lifetime) cfg.timeout now now with
+    | none => simp
+    | some l1 =>
+      obtain ⟨_, hl1⟩ := budget_le hb1
+      have h1 := ends_within_lifetime cfg (subReq rq rq.qname tyAAAA false (some l1)) now cache script
+      simp only [codeResolve, subReq, Option.getD_some] at h1
+      simp only [subReq]
+      generalize resolve cfg codeBackoff ConstsC16.clipSleep ConstsC16.maxChain
+        { qname := rq.qname, rdtype := tyAAAA, rdclass := clsIN, tcp := rq.tcp, raiseOnNoAnswer := false,
+          search := rq.search, lifetime := some l1 } now cache script = r1 at h1 ⊢
+      cases hr1 : r1.2.1 with
+      | answer v6 =>
+        simp only
+        cases hb2 : budget (rq.lifetime.getD cfg.lifetime) cfg.timeout now r1.2.2.now with
+        | none => simp only [finalOf]; omega
+        | some l2 =>
+          obtain ⟨_, hl2⟩ := budget_le hb2
+          have h2 := ends_within_lifetime cfg (subReq rq v6.qname tyA false (some l2)) r1.2.2.now r1.2.2.cache
+            r1.2.2.script
+          simp only [codeResolve, subReq, Option.getD_some] at h2
+          simp only [finalOf]
+          omega
+      | nxdomain a b => simp only [finalOf]; omega
+      | noAnswer => simp only [finalOf]; omega
+      | yxdomain => simp only [finalOf]; omega
+      | noNameservers => simp only [finalOf]; omega
+      | lifetimeTimeout => simp only [finalOf]; omega
+      | nameError e => simp only [finalOf]; omega
+      | noMetaqueries => simp only [finalOf]; omega
+      | outOfFuel => simp only [finalOf]; omega
+
+/-- non-vacuity (the scenario of seeded change C16-g): lifetime 4 s, the AAAA lookup gets no data after 3 s, nobody
+answers the A lookup — its one query is given the remaining second and the call ends at 4 s with `LifetimeTimeout` -/
+example :
+    let cfg : Config := { servers := [⟨0, false⟩], search := [], domain := none, ndots := none,
+                          useSearchByDefault := false, timeout := 4000, lifetime := 4000, retryServfail := false,
+                          cacheOn := false }
+    let rq : NameReq := { qname := [[97], []], family := .unspec, tcp := false, raiseOnNoAnswer := true,
+                          search := none, lifetime := none }
+    let nodata : Resp := { rcode := 0, qr := true, qcount := 1, answer := [], authority := [] }
+    let r := codeResolveName cfg rq 0 [] [⟨.resp nodata, 3000⟩]
+    r.2.1 = .raised .lifetimeTimeout ∧ r.2.2.now = 4000 ∧
+    r.1 = [.candidate [[97], []], .query [[97], []] ⟨0, false⟩ false 4000 (.resp nodata),
+           .candidate [[97], []], .query [[97], []] ⟨0, false⟩ false 1000 (.exc .timeout), .sleep 0] := by
+  decide
 
 /-! ## the asyncio resolver -/
 
